@@ -470,6 +470,10 @@ func c17GenVal(t *rapid.T, depth int) any {
 	case 0, 1, 2:
 		return rapid.SampledFrom(c17StrVals).Draw(t, "str")
 	case 3:
+		if rapid.IntRange(0, 5).Draw(t, "bigint") == 0 {
+			// integers a float64 cannot hold: every endpoint must serve the same digits for them
+			return rapid.SampledFrom([]int64{1234567890123456789, 9007199254740993, -9223372036854775807, 9007199254740992}).Draw(t, "big")
+		}
 		return rapid.IntRange(-3, 1000).Draw(t, "int")
 	case 4:
 		return rapid.SampledFrom([]float64{2.5, -0.125, 1e21, 0.1, 37.7749}).Draw(t, "float")
@@ -865,6 +869,9 @@ type c17Result struct {
 	evalN   int
 	usage   bool // counts were reported
 	lines   int  // messages received before the end
+	// the number literals inside tool-call arguments exactly as served (digits, not float64 values), in document order;
+	// nil = not extracted. Both endpoints encode the same float64 values with the same encoder, so the literals agree.
+	numLits []string
 }
 
 func c17NativeCalls(tcs []api.ToolCall) []c17Call {
@@ -875,8 +882,81 @@ func c17NativeCalls(tcs []api.ToolCall) []c17Call {
 	return out
 }
 
+// c17NumLits collects, from a raw response body (one JSON document, NDJSON lines or SSE "data:" lines), the number
+// literals inside the arguments of every tool call, as served: native arguments are objects, OpenAI arguments are
+// strings holding JSON. Keys are visited in sorted order.
+func c17NumLits(raw []byte) []string {
+	out := []string{}
+	var walkArgs func(v any)
+	walkArgs = func(v any) {
+		switch x := v.(type) {
+		case json.Number:
+			out = append(out, x.String())
+		case []any:
+			for _, e := range x {
+				walkArgs(e)
+			}
+		case map[string]any:
+			ks := make([]string, 0, len(x))
+			for k := range x {
+				ks = append(ks, k)
+			}
+			sort.Strings(ks)
+			for _, k := range ks {
+				walkArgs(x[k])
+			}
+		}
+	}
+	var find func(v any)
+	find = func(v any) {
+		switch x := v.(type) {
+		case []any:
+			for _, e := range x {
+				find(e)
+			}
+		case map[string]any:
+			ks := make([]string, 0, len(x))
+			for k := range x {
+				ks = append(ks, k)
+			}
+			sort.Strings(ks)
+			for _, k := range ks {
+				if k == "arguments" {
+					switch a := x[k].(type) {
+					case string:
+						d := json.NewDecoder(strings.NewReader(a))
+						d.UseNumber()
+						var av any
+						if d.Decode(&av) == nil {
+							walkArgs(av)
+						}
+					default:
+						walkArgs(a)
+					}
+					continue
+				}
+				find(x[k])
+			}
+		}
+	}
+	for _, line := range bytes.Split(raw, []byte("\n")) {
+		line = bytes.TrimSpace(bytes.TrimPrefix(bytes.TrimSpace(line), []byte("data:")))
+		if len(line) == 0 || line[0] != '{' {
+			continue
+		}
+		d := json.NewDecoder(bytes.NewReader(line))
+		d.UseNumber()
+		var v any
+		if d.Decode(&v) == nil {
+			find(v)
+		}
+	}
+	return out
+}
+
 // c17CheckNativeRaw is R4 on the raw body of a native response and the agreement of api.Client's view with it.
 func c17CheckNativeRaw(what string, stream bool, status int, raw []byte, r *c17Result, clientErr error) error {
+	r.numLits = c17NumLits(raw)
 	if !bytes.HasSuffix(raw, []byte("\n")) && stream {
 		return fmt.Errorf("%s: body does not end with a newline: %q", what, c17Tail(raw))
 	}
@@ -1110,6 +1190,7 @@ func (e *c17Env) openai(c c17Case, sh c17Shape, stream, failing, tolerateSwallow
 		return r, fmt.Errorf("%s: transport: %v", what, err)
 	}
 	r.status = status
+	r.numLits = c17NumLits(raw)
 	add := func(ch *c17OAChunk, streamed bool) error {
 		if len(ch.Choices) > 1 {
 			return fmt.Errorf("%s: %d choices", what, len(ch.Choices))
@@ -1340,6 +1421,9 @@ func c17Same(a, b *c17Result, text, calls, reason, counts bool) error {
 	if calls && !slices.Equal(a.calls, b.calls) {
 		return fmt.Errorf("tool calls differ (name, arguments; index not compared): %s has %s, %s has %s",
 			a.what, c17CallsString(a.calls), b.what, c17CallsString(b.calls))
+	}
+	if calls && a.numLits != nil && b.numLits != nil && !slices.Equal(a.numLits, b.numLits) {
+		return fmt.Errorf("numbers inside tool-call arguments differ as served: %s has %v, %s has %v", a.what, a.numLits, b.what, b.numLits)
 	}
 	if reason && a.reason != b.reason {
 		return fmt.Errorf("finish reason differs: %s has %q, %s has %q", a.what, a.reason, b.what, b.reason)
